@@ -66,6 +66,9 @@ class Dual:
         assert not isinstance(k, Dual)
         return self._un(lambda v: v ** k, lambda v: k * v ** (k - 1))
 
+    def __rmatmul__(self, m):
+        return DualNS.dot(m, self)
+
     def __neg__(self):
         return Dual(-self.val, -self.jac)
 
@@ -128,6 +131,10 @@ class DualNS:
     def dot(m, a):
         assert not isinstance(m, Dual)
         return Dual(onp.dot(m, a.val), onp.tensordot(m, a.jac, axes=([1], [0])))
+
+    @staticmethod
+    def matmul(m, a):
+        return DualNS.dot(m, a)
 
     @staticmethod
     def concatenate(parts, axis=0):
